@@ -323,20 +323,59 @@ class Gen:
         return ["bdiag", [["ann", "SelfAdjoint", ["dense", dt, q, q, self.herm(dt, q)]] for q in parts], [1] * len(parts)]
 
     def special(self, depth):
-        """trees whose interesting feature needs more than the targeted generator's small extents"""
+        """trees whose interesting feature needs more than the targeted generator's small extents: 3-4 factor Kronecker
+        products of pairwise different (mostly non-square) extents, Kronecker sums of different sizes, BlockDiag with
+        multiplicities over non-square blocks, complex Hermitian composites, Gram products with one or BOTH factors wrapped"""
         rng = self.rng
-        k = rng.choice(["bigkron", "bigkron", "bigkronsum", "herm", "herm", "bdiagmult"])
+        d2 = max(0, depth - 2)
+        k = rng.choice(["bigkron", "bigkron", "bigkronsum", "herm", "herm", "bdiagmult", "bdiagmult", "gramwrap", "hermcomp"])
         if k == "bigkron":
             n = rng.choice([3, 3, 4])
-            dims = [(rng.choice([1, 2, 2]), rng.choice([1, 2, 2])) for _ in range(n)]
-            j = rng.randrange(n)
-            dims[j] = (rng.choice([2, 3]), rng.choice([1, 2, 3]))
-            return ["kron"] + [self.op(a, b, max(0, depth - 2)) for a, b in dims]
+            pool = [(1, 2), (2, 1), (2, 3), (3, 2), (1, 3), (3, 1), (2, 2), (3, 3), (2, 4), (4, 2), (1, 1)]
+            while True:
+                dims = rng.sample(pool, n)
+                R = C = 1
+                for a, b in dims:
+                    R, C = R * a, C * b
+                if R <= 36 and C <= 36 and sum(a != b for a, b in dims) >= 2:
+                    break
+            return ["kron"] + [self.op(a, b, d2) for a, b in dims]
         if k == "bigkronsum":
-            return ["kronsum"] + [self.op(q, q, max(0, depth - 2)) for q in [2, 2, rng.choice([1, 2])]]
+            sizes = rng.choice([[2, 3, 2], [2, 3], [3, 2, 1], [2, 2, 3], [4, 3], [2, 3, 4], [3, 3, 2]])
+            return ["kronsum"] + [self.op(q, q, d2) for q in sizes]
         if k == "bdiagmult":
-            return ["bdiag", [self.op(rng.choice([1, 2]), rng.choice([1, 2, 3]), max(0, depth - 2)) for _ in range(2)], [rng.choice([2, 3]), rng.choice([1, 2])]]
-        n = rng.randint(2, 4)
+            nb = rng.choice([2, 2, 3])
+            shapes = rng.sample([(1, 2), (2, 1), (2, 3), (3, 2), (1, 3), (3, 1), (2, 2), (1, 1), (3, 3)], nb)
+            mults = [rng.choice([1, 2, 3]) for _ in range(nb)]
+            mults[rng.randrange(nb)] = rng.choice([2, 3])
+            return ["bdiag", [self.op(a, b, d2) for a, b in shapes], mults]
+        if k == "gramwrap":
+            # A.H @ A, A @ A.T, and the NON-Gram products with both factors wrapped (A.H @ A.H, A.T @ A.H, ...) around one
+            # shared operator of any kind (not only Dense)
+            form = rng.choice(["both", "both", "left", "right"])
+            w1, w2 = rng.choice(["H", "H", "T"]), rng.choice(["H", "T"])
+            if form == "both":
+                n = rng.randint(2, 4)
+                X = self.op(n, n, max(0, depth - 1))
+                return ["prod", [w1, X], [w2, X]]
+            r, c = rng.randint(1, 4), rng.randint(2, 4)
+            X = self.op(r, c, max(0, depth - 1))
+            return ["prod", [w1, X], X] if form == "left" else ["prod", X, [w1, X]]
+        if k == "hermcomp":
+            # complex Hermitian composites: sums / Kronecker products / block diagonals / slices of Hermitian operators
+            n = rng.randint(2, 4)
+            f = rng.choice(["sum", "kron", "bdiag", "slice", "TH"])
+            if f == "sum":
+                return ["sum", self.herm_op(n, depth), self.herm_op(n, depth)]
+            if f == "kron":
+                return ["kron", self.herm_op(2, depth), self.herm_op(rng.choice([2, 3]), depth)]
+            if f == "bdiag":
+                return ["bdiag", [self.herm_op(2, depth), self.herm_op(rng.choice([1, 3]), depth)], [rng.choice([1, 2]), rng.choice([1, 2])]]
+            if f == "slice":
+                ixx = self.ix(n + 1, n)
+                return ["slice", self.herm_op(n + 1, depth), ixx, ixx]
+            return [rng.choice(["T", "H"]), [rng.choice(["T", "H"]), self.herm_op(n, depth)]]
+        n = rng.randint(2, 5)
         h = self.herm_op(n, depth)
         w = rng.choice(["plain", "T", "H", "prod", "slice"])
         if w == "T":
